@@ -6,12 +6,14 @@
 package jerr
 
 import (
+	"bytes"
 	"encoding/json"
 	"fmt"
 	"os"
 	"path/filepath"
 	"sort"
 	"strings"
+	"unicode/utf8"
 )
 
 var vNative struct {
@@ -189,6 +191,18 @@ func vMapOrderSites() int { return 0 }
 // vFSMark brackets the code under test for the native file-system trace: a marker
 // system call that strace shows (engine: no-op).
 func vFSMark(label string) { _, _ = os.Stat("/verif-fs-mark/" + label + vRootDir()) }
+
+// vJSONValid / vJSONCompact: encoding/json.Valid and Compact on a concrete serialisation
+// (engine: run natively on the concrete bytes).
+func vJSONValid(b []byte) bool { return json.Valid(b) && utf8.Valid(b) }
+
+func vJSONCompact(b []byte) string {
+	var out bytes.Buffer
+	if err := json.Compact(&out, b); err != nil {
+		return "compact-error:" + err.Error()
+	}
+	return out.String()
+}
 
 // vFSLog: (engine only) the paths handed to the file-system stubs so far.
 func vFSLog() []string { return nil }
